@@ -199,6 +199,8 @@ def graddrop(index, ctx, A, by_class):
                     return
     fn = fi.node
     rows = [n for n in ast.walk(fn) if isinstance(n, ast.For)]
+    if not rows and graddrop_vectorised(ctx, fi, fn, ok_draw):
+        return
     if len(rows) != 1:
         ctx.undecided("R2", "GradDrop: loop over rows", f"expected one loop, found {len(rows)}", fi.loc())
         return
@@ -254,6 +256,70 @@ def graddrop(index, ctx, A, by_class):
         else:
             ctx.require(ok_mask, "R2", "GradDrop: mask keeps the positive entries or the negative entries of a column", f"mask `{norm_text(ms[0].value)}` ≡ (s > U)·(row > 0) + (s < U)·(row < 0)",
                         f"mask `{norm_text(ms[0].value)}` is not equivalent to (s > U)·(row > 0) + (s < U)·(row < 0): {why_mask}", _loc(fi, ms[0]))
+
+
+def graddrop_vectorised(ctx, fi, fn, ok_draw) -> bool:
+    """The loop over rows written as one expression over the whole matrix: `((L + (1 - L) * M) * matrix).sum(dim=0)` with M the
+    m x n mask and L the leak vector broadcast along the columns (`leak.unsqueeze(1)`, `leak[:, None]`, `leak.view(-1, 1)`).
+    Returns False when the code is not of this shape (nothing reported)."""
+    from ..astutil import inline_locals
+
+    mparam = next((a_.arg for a_ in fn.args.args if a_.arg != "self"), "matrix")
+    sums = [c for c in ast.walk(fn) if isinstance(c, ast.Call) and ((isinstance(c.func, ast.Attribute) and c.func.attr == "sum" and not (isinstance(c.func.value, ast.Name) and c.func.value.id == "torch"))
+                                                                    or norm_text(c.func) == "torch.sum")]
+    def dim0(c):
+        d = next((k.value for k in c.keywords if k.arg in ("dim", "axis")), None)
+        if d is None:
+            extra = c.args[1:] if norm_text(c.func) == "torch.sum" else c.args
+            d = extra[0] if extra else None
+        return isinstance(d, ast.Constant) and d.value == 0
+    assigns = {s2.targets[0].id: s2 for s2 in ast.walk(fn) if isinstance(s2, ast.Assign) and len(s2.targets) == 1 and isinstance(s2.targets[0], ast.Name)}
+    mask_names = {n_ for n_, s2 in assigns.items() if any(isinstance(x, ast.Compare) for x in ast.walk(s2.value)) and not isinstance(s2.value, ast.IfExp)}
+    opnd = lambda c: c.args[0] if norm_text(c.func) == "torch.sum" else c.func.value
+    # the sum over the rows of the masked matrix (not the column statistics the keep probability is made of)
+    sums = [c for c in sums if dim0(c) and ({x.id for x in ast.walk(opnd(c)) if isinstance(x, ast.Name)} & mask_names)]
+    if len(sums) != 1:
+        return False
+    operand = opnd(sums[0])
+
+    def col_broadcast_of(e):
+        """`x.unsqueeze(1)` / `x[:, None]` / `x.view(-1, 1)` / `x.reshape(-1, 1)` -> text of x, else None."""
+        if isinstance(e, ast.Call) and isinstance(e.func, ast.Attribute):
+            a_ = [norm_text(x) for x in e.args]
+            if (e.func.attr == "unsqueeze" and a_ in (["1"], ["-1"])) or (e.func.attr in ("view", "reshape") and a_ in (["-1", "1"], ["(-1, 1)"], ["[-1, 1]"])):
+                return norm_text(e.func.value)
+        if isinstance(e, ast.Subscript) and norm_text(e.slice).replace(" ", "") in (":,None", "(slice(None,None,None),None)"):
+            return norm_text(e.value)
+        return None
+
+    leak_cols = {n_: col_broadcast_of(s2.value) for n_, s2 in assigns.items() if col_broadcast_of(s2.value) is not None}
+    keep = mask_names | set(leak_cols) | {mparam}
+    value = inline_locals(operand, fn, keep=keep)
+    atoms: dict = {}
+    p = expr_poly(value, atoms)
+    row_syms = [t for t, e in atoms.items() if isinstance(e, ast.Name) and e.id == mparam]
+    mask_syms = [t for t in atoms if t in mask_names]
+    leak_syms = [t for t in atoms if t not in row_syms and t not in mask_syms]
+    key = "GradDrop (one expression over the matrix)"
+    if p is None or len(row_syms) != 1 or len(mask_syms) != 1 or len(leak_syms) != 1:
+        return False
+    ctx.require(ok_draw, "R2", "GradDrop: one uniform draw per column, outside the row loop", "U ~ rand((C,)) drawn once; no loop over rows", "the sign decision is not one uniform draw per column", fi.loc())
+    lk = leak_syms[0]
+    ctx.require(lk in leak_cols or (isinstance(atoms[lk], ast.AST) and col_broadcast_of(atoms[lk]) is not None), "R2", f"{key}: the leak of row i multiplies row i",
+                f"`{lk}` is the leak vector broadcast along the columns", f"`{norm_text(atoms[lk]) if isinstance(atoms[lk], ast.AST) else lk}` is not the leak vector turned into a column (one leak per row)", _loc(fi, sums[0]))
+    X, L, M = Poly.sym(row_syms[0]), Poly.sym(lk), mask_syms[0]
+    at1, at0 = p.subs(M, Poly.const(1)), p.subs(M, Poly.const(0))
+    ctx.require(at1 == X and at0 == L * X, "R2", "GradDrop: kept entries weigh 1, dropped entries weigh leak_i", f"coefficient·matrix = {p}: mask=1 → {at1}, mask=0 → {at0}",
+                f"`{norm_text(value)}` evaluates to {at1} when the mask is 1 (expected {X}) and to {at0} when it is 0 (expected {L * X})", _loc(fi, sums[0]), derivation={"poly": repr(p)})
+    u_names = [n_ for n_, s2 in assigns.items() if isinstance(s2.value, ast.Call) and norm_text(s2.value.func).split(".")[-1] in ("rand", "rand_like")]
+    mexpr = inline_locals(assigns[M].value, fn, keep={M} | set(u_names) | {mparam})
+    ok_mask, why_mask = mask_equivalent(mexpr, mparam, u_names[0] if len(u_names) == 1 else None)
+    if ok_mask is None:
+        ctx.undecided("R2", "GradDrop: mask keeps the positive entries or the negative entries of a column", f"mask `{norm_text(assigns[M].value)}`: {why_mask}", _loc(fi, assigns[M]))
+    else:
+        ctx.require(ok_mask, "R2", "GradDrop: mask keeps the positive entries or the negative entries of a column", f"mask `{norm_text(assigns[M].value)}` ≡ (s > U)·(matrix > 0) + (s < U)·(matrix < 0)",
+                    f"mask `{norm_text(assigns[M].value)}` is not equivalent to (s > U)·(matrix > 0) + (s < U)·(matrix < 0): {why_mask}", _loc(fi, assigns[M]))
+    return True
 
 
 def mask_equivalent(expr, row_text, u_name=None):
